@@ -290,6 +290,55 @@ pub fn check(case: &C12Case, st: &mut Stats) -> Verdict {
                 pv(c[5], c[3], "puts every decoy before every real digest")?;
             }
             st.sum("order_positions_judged", positions_judged);
+            // the member-order half of the clause does not depend on decoys being requested:
+            // the same per-position judgement over 200 decoy-free issuances
+            {
+                let mut per_pos_off: std::collections::BTreeMap<(crate::tree::Path, bool), [u64; 3]> = Default::default();
+                let mut off_issuer = sut::new_issuer(base.alg, crate::keys::KeyId::Primary);
+                for _ in 0..case.repeat.min(200) {
+                    st.sub(1);
+                    let text = match sut::issue_with(&mut off_issuer, &off) {
+                        Out::Ok(t) => t,
+                        _ => continue,
+                    };
+                    let (parts, jwt) = match split(&text, base.fmt).ok().and_then(|p| decode_jwt(&p.jwt).ok().map(|j| (p, j))) {
+                        Some(x) => x,
+                        None => continue,
+                    };
+                    let r = reconstruct(&jwt.payload, &parts.disclosures);
+                    for l in &r.sd_lists {
+                        let real: Vec<&String> = l.entries.iter().filter_map(|e| e.2.as_ref()).collect();
+                        if real.len() < 2 {
+                            continue;
+                        }
+                        let order = member_order(&tree, &l.path);
+                        let want: Vec<&String> = order.iter().filter(|n| real.contains(n)).collect();
+                        let mut rev = want.clone();
+                        rev.reverse();
+                        let c = per_pos_off.entry((l.path.clone(), l.in_disclosure)).or_insert([0; 3]);
+                        c[0] += 1;
+                        c[1] += (real == want) as u64;
+                        c[2] += (real == rev) as u64;
+                    }
+                }
+                for ((path, in_disc), c) in &per_pos_off {
+                    for (count, what) in [(c[1], "lists the real digests in the original member order"), (c[2], "lists the real digests in reverse member order")] {
+                        if c[0] >= 200 && count == c[0] {
+                            return Err(Failure::new(
+                                format!("decoy:order-leak:position:decoys-off:{}", what),
+                                format!(
+                                    "in all {} decoy-free issuances of the same claims the _sd list of the object at {}{} {}",
+                                    c[0],
+                                    if path.is_empty() { "the top level".to_string() } else { path_str(path) },
+                                    if *in_disc { " (inside a disclosed value)" } else { "" },
+                                    what
+                                ),
+                            ));
+                        }
+                    }
+                }
+                st.sum("order_positions_judged_decoys_off", per_pos_off.values().filter(|c| c[0] >= 200).count() as u64);
+            }
         }
     }
     Ok(())
